@@ -22,6 +22,8 @@ interrupt, the master scheduler stamps it and records the wakeup `min (wakeup of
   CURRENT entry" (true only for `e`, the entry when the interrupt was recorded, and — with `≤` —
   under `StampsTimely`/`NoPastCallbacks`: `pending_not_overtakenI`).
 * T5 `wake_entry_provenanceI`, `tick_provenanceI` — C06 "never invented" with interrupts.
+* also: `wakeups_served_one_tickI` (C06 R2: simultaneous wakeups — callbacks and interrupts — are
+  served by ONE tick), `flatRunI_can_continue`, `interrupt_next_tick`.
 * non-vacuity: `exI_run` and the `example`s at the end.
 
 Helper lemmas: `Lemmas/FlatIntLemmas.lean` (namespace `Tickit.FlatInt`).
@@ -411,5 +413,203 @@ theorem tick_time_provenanceI (w : Wiring) (devs : DevSeq Val) (t0 : SimTime) (s
   have := (hcs c).2 hc
   rw [hnil] at this
   simp at this
+
+/-! ### merging and continuability (C06 R2 and `flatRun_can_continue` with interrupts) -/
+
+/-- **R2 with interrupts.**  In a scheduler step at time `m` the roots `cs` are exactly the
+components whose pending wakeup — callback or interrupt — equals `m` (the minimum); every one of
+them is really updated by this ONE tick: it gets exactly one new observation, at time `m`; its
+wakeup is consumed, and its entry afterwards is what the device asked for in this update. -/
+theorem wakeups_served_one_tickI (w : Wiring) (hw : RouterOK w) (devs : DevSeq Val) (t0 : SimTime)
+    (sc : List FAct) (n : Nat) (st : FlatSt Val) (times : List SimTime)
+    (hrun : FlatRunI w devs t0 sc n st times)
+    (cs : List Comp) (m : SimTime) (hf : firstWakeups st.wake = (cs, some m)) (st' : FlatSt Val)
+    (htick : TickRun w (devs (n + 1)) { st with wake := delWakeups st.wake cs } m cs st') :
+    (∀ c, alookup st.wake c = some m ↔ c ∈ cs) ∧ cs.Nodup ∧
+    ∀ c, alookup st.wake c = some m →
+      ∃ given, st'.obsOf c = st.obsOf c ++ [(m, given)] ∧ (c, m, given) ∈ st'.obs ∧
+        alookup st'.wake c = ((devs (n + 1)) c m given).callAt := by
+  have huk := FlatInt.flatRunI_uniqueKeys hrun
+  obtain ⟨hcs, _, _, hnd⟩ := firstWakeups_spec _ huk cs m hf
+  refine ⟨fun c => (hcs c).symm, hnd, fun c hc => ?_⟩
+  have hmem : c ∈ cs := (hcs c).2 hc
+  obtain ⟨given, hob, hwk⟩ := tickRun_root hw htick hmem
+  refine ⟨given, hob, ?_, ?_⟩
+  · rw [← mem_obsOf, hob]
+    simp
+  · rw [hwk]
+    have hdel : alookup (delWakeups st.wake cs) c = none := by
+      rw [delWakeups_lookup _ huk, if_pos hmem]
+    cases hcall : ((devs (n + 1)) c m given).callAt with
+    | none => exact hdel
+    | some x => rfl
+
+/-- a run can always be continued by a tick while a wakeup is pending (and by an interrupt of any
+component at any time: constructor `FlatRunI.interrupt`). -/
+theorem flatRunI_can_continue (w : Wiring) (hw : RouterOK w) (hacyc : w.Acyclic)
+    (devs : DevSeq Val) (t0 : SimTime) (sc : List FAct) (n : Nat) (st : FlatSt Val)
+    (times : List SimTime) (hrun : FlatRunI w devs t0 sc n st times) (hne : st.wake ≠ []) :
+    ∃ st' m, FlatRunI w devs t0 (sc ++ [FAct.tick]) (n + 1) st' (m :: times) := by
+  have hsome : (firstWakeups st.wake).2 ≠ none := fun h => hne ((firstWakeups_none _).1 h)
+  obtain ⟨m, hm⟩ := Option.ne_none_iff_exists'.1 hsome
+  have hf : firstWakeups st.wake = ((firstWakeups st.wake).1, some m) := by rw [← hm]
+  have hroots := Sync.hroots_of_components (w := w) (roots := (firstWakeups st.wake).1)
+    (fun r hr => (FlatInt.runI_inv hw hrun).2 r (Sync.firstWakeups_sub hf r hr))
+  obtain ⟨st', h⟩ := tickRun_exists w hacyc (devs (n + 1))
+    { st with wake := delWakeups st.wake (firstWakeups st.wake).1 } m _ hroots
+  exact ⟨st', m, .tick hrun hf h⟩
+
+/-- after an interrupt stamped `stamp` a next tick is always possible, and the next scheduler step
+(whatever it serves) happens at a time `≤ stamp`, with `c` as a root iff that time is `c`'s entry. -/
+theorem interrupt_next_tick (w : Wiring) (hw : RouterOK w) (hacyc : w.Acyclic)
+    (devs : DevSeq Val) (t0 : SimTime) (sc0 : List FAct) (c : Comp) (stamp : SimTime) (n : Nat)
+    (st1 : FlatSt Val) (times : List SimTime)
+    (hrun : FlatRunI w devs t0 (sc0 ++ [FAct.interrupt c stamp]) n st1 times) :
+    (∃ st' m, FlatRunI w devs t0 (sc0 ++ [FAct.interrupt c stamp] ++ [FAct.tick]) (n + 1) st'
+      (m :: times)) ∧
+    ∀ cs m, firstWakeups st1.wake = (cs, some m) →
+      m ≤ stamp ∧ (c ∈ cs ↔ alookup st1.wake c = some m) := by
+  obtain ⟨e, he, hle, _, _⟩ := interrupt_served w hw devs t0 sc0 c stamp n st1 times hrun
+  refine ⟨flatRunI_can_continue w hw hacyc devs t0 _ n st1 times hrun
+    (wake_ne_nil_of_lookup he), fun cs m hf => ?_⟩
+  obtain ⟨hcs, hmin, _, _⟩ := firstWakeups_spec _ (FlatInt.flatRunI_uniqueKeys hrun) cs m hf
+  exact ⟨Int.le_trans (hmin c e he) hle, hcs c⟩
+
+/-! ### non-vacuity and checked counterexamples
+
+The wiring `exCW` and the devices `exCDev` of `Props/C06Run.lean`: device `a` (reports its update
+time on port `o`, callback every 2 ns) is wired into `a2` (never asks for a callback); device `b`
+has a callback every 3 ns. -/
+
+theorem exCDev_ext : ∀ k : Nat, DevExt ((fun _ => exCDev : DevSeq Int) k) :=
+  fun _ _ _ _ _ _ => rfl
+
+/-- a run with interrupts, in two parts.  Initial tick at 0; callback tick at 2 (root `a`, `a2` is
+updated as a dependant); `a2` raises an interrupt stamped 3 (it had no wakeup: entry 3) — state
+`st1`.  Continuation: `b` raises an interrupt stamped 2, which LOWERS its callback entry 3 to 2;
+tick at 2 (root `b`, served early because of the interrupt; it asks for 5); tick at 3 (root `a2`:
+the interrupt of `a2` is served at exactly its stamp).  Tick times `[3, 2, 2, 0]`. -/
+theorem exI_run : ∃ st1 st' : FlatSt Int,
+    FlatRunI exCW (fun _ => exCDev) 0 ([.tick] ++ [.interrupt "a2" 3]) 1 st1 [2, 0] ∧
+    FlatExtI exCW (fun _ => exCDev) 1 st1 [2, 0] [.interrupt "b" 2, .tick, .tick] 3 st'
+      [3, 2, 2, 0] ∧
+    st1.wake = [("b", 3), ("a", 4), ("a2", 3)] ∧
+    st1.obsOf "a2" = [(0, [("i", 0)]), (2, [("i", 2)])] ∧
+    st'.obsOf "a2" = [(0, [("i", 0)]), (2, [("i", 2)]), (3, [("i", 2)])] ∧
+    st'.obsOf "b" = [(0, []), (2, [])] ∧ st'.wake = [("a", 4), ("b", 5)] := by
+  refine ⟨_, _, .interrupt (sc := [.tick]) (c := "a2") (stamp := 3)
+    (.tick (sc := []) (cs := ["a"]) (m := 2) (.initial
+      ⟨_, .step (i := 0) (.step (i := 0) (.step (i := 0) (.init rfl) rfl) rfl) rfl, rfl, rfl⟩)
+      rfl ⟨_, .step (i := 0) (.step (i := 0) (.init rfl) rfl) rfl, rfl, rfl⟩) (by decide),
+    .tick (sc := [.interrupt "b" 2, .tick]) (cs := ["a2"]) (m := 3)
+      (.tick (sc := [.interrupt "b" 2]) (cs := ["b"]) (m := 2)
+        (.interrupt (sc := []) (c := "b") (stamp := 2) .refl (by decide))
+        rfl ⟨_, .step (i := 0) (.init rfl) rfl, rfl, rfl⟩)
+      rfl ⟨_, .step (i := 0) (.init rfl) rfl, rfl, rfl⟩, ?_, ?_, ?_, ?_, ?_⟩ <;> decide
+
+def exIScript : List FAct := [.tick, .interrupt "a2" 3, .interrupt "b" 2, .tick, .tick]
+
+theorem exIScript_timely : StampsTimely exIScript [3, 2, 2, 0] := by
+  simp [exIScript, StampsTimely, stampsTimelyRev]
+
+/-- T2, T3 and T5 applied to the whole run `exI_run`: every other run with the same script has the
+same tick times and observations; the stamps are timely and time is monotone; every tick time is
+accounted for. -/
+example : ∃ st : FlatSt Int, FlatRunI exCW (fun _ => exCDev) 0 exIScript 3 st [3, 2, 2, 0] ∧
+    (∀ n2 st2 times2, FlatRunI exCW (fun _ => exCDev) 0 exIScript n2 st2 times2 →
+      3 = n2 ∧ [3, 2, 2, 0] = times2 ∧ (∀ c, ObsEq (st.obsOf c) (st2.obsOf c)) ∧
+        MapEq st.wake st2.wake) ∧
+    StampsTimely exIScript [3, 2, 2, 0] ∧
+    ([3, 2, 2, 0] : List SimTime).Pairwise (fun later earlier => earlier ≤ later) ∧
+    (∀ c t, alookup st.wake c = some t → ∀ m ∈ ([3, 2, 2, 0] : List SimTime), m ≤ t) ∧
+    ∀ m ∈ ([3, 2, 2, 0] : List SimTime), m = 0 ∨
+      (∃ (c : Comp) (k : Nat) (t_req : SimTime) (ins : List (Port × Int)),
+        k ≤ 3 ∧ ([3, 2, 2, 0] : List SimTime)[3 - k]? = some t_req ∧ (c, t_req, ins) ∈ st.obs ∧
+        (exCDev c t_req ins).callAt = some m) ∨
+      ∃ c, FAct.interrupt c m ∈ exIScript := by
+  obtain ⟨st1, st', hrun1, hext, _⟩ := exI_run
+  have hrun : FlatRunI exCW (fun _ => exCDev) 0 exIScript 3 st' [3, 2, 2, 0] :=
+    continuationI_is_run exCW _ 0 _ _ 1 3 st1 st' _ _ hrun1 hext
+  refine ⟨st', hrun, fun n2 st2 times2 h2 => ?_, exIScript_timely, ?_, ?_, ?_⟩
+  · exact schedule_independentI exCW exCW_routerOK exCW_acyclic _ exCDev_ext 0 exIScript 3 n2 st'
+      st2 _ times2 hrun h2
+  · exact time_monotoneI exCW _ exCDev_strict.noPast 0 exIScript 3 st' _ hrun exIScript_timely
+  · exact fun c t hc => pending_not_overtakenI exCW _ exCDev_strict.noPast 0 exIScript 3 st' _ hrun
+      exIScript_timely c t hc
+  · exact fun m hm => tick_provenanceI exCW _ 0 exIScript 3 st' _ hrun m hm
+
+/-- T4 applied to the interrupt of `a2` (stamp 3) in `exI_run`: its entry is 3; in EVERY
+continuation exactly one of `StillPendingI`/`FirstUpdateI` holds; and in the continuation of
+`exI_run` the interrupt is served (`FirstUpdateI`). -/
+example : ∃ st1 : FlatSt Int,
+    FlatRunI exCW (fun _ => exCDev) 0 ([.tick] ++ [.interrupt "a2" 3]) 1 st1 [2, 0] ∧
+    alookup st1.wake "a2" = some 3 ∧
+    (∀ sc n' st' times', FlatExtI exCW (fun _ => exCDev) 1 st1 [2, 0] sc n' st' times' →
+      (StillPendingI st1 [2, 0] sc st' times' "a2" 3 ∨
+        FirstUpdateI exCW (fun _ => exCDev) 1 st1 [2, 0] sc n' st' times' "a2" 3) ∧
+      ¬ (StillPendingI st1 [2, 0] sc st' times' "a2" 3 ∧
+        FirstUpdateI exCW (fun _ => exCDev) 1 st1 [2, 0] sc n' st' times' "a2" 3)) ∧
+    ∃ st', FlatExtI exCW (fun _ => exCDev) 1 st1 [2, 0] [.interrupt "b" 2, .tick, .tick] 3 st'
+        [3, 2, 2, 0] ∧
+      FirstUpdateI exCW (fun _ => exCDev) 1 st1 [2, 0] [.interrupt "b" 2, .tick, .tick] 3 st'
+        [3, 2, 2, 0] "a2" 3 := by
+  obtain ⟨st1, st', hrun1, hext, hwk, hob1, hob', _⟩ := exI_run
+  obtain ⟨e, he, _, _, hall⟩ :=
+    interrupt_served exCW exCW_routerOK _ 0 [.tick] "a2" 3 1 st1 [2, 0] hrun1
+  have h3 : alookup st1.wake "a2" = some 3 := by rw [hwk]; decide
+  have : e = 3 := Option.some.inj (he.symm.trans h3)
+  subst this
+  refine ⟨st1, hrun1, h3, hall, st', hext, ?_⟩
+  rcases (hall _ _ _ _ hext).1 with hp | hfu
+  · have := congrArg List.length hp.no_new_obs
+    rw [hob1, hob'] at this
+    simp at this
+  · exact hfu
+
+/-- **checked counterexample: `StampsTimely` is needed for T3.**  `a2` raises an interrupt stamped
+1 after the tick at 2 (a stamp before the last tick — impossible under the pacing law): the next
+tick is at 1, time runs backwards, although no device asks for a callback in the past. -/
+theorem time_not_monotone_untimely : ∃ st : FlatSt Int,
+    FlatRunI exCW (fun _ => exCDev) 0 [.tick, .interrupt "a2" 1, .tick] 2 st [1, 2, 0] ∧
+    NoPastCallbacks (fun _ => exCDev : DevSeq Int) ∧
+    ¬ StampsTimely [.tick, .interrupt "a2" 1, .tick] [1, 2, 0] ∧
+    ¬ ([1, 2, 0] : List SimTime).Pairwise (fun later earlier => earlier ≤ later) := by
+  refine ⟨_, .tick (sc := [.tick, .interrupt "a2" 1]) (cs := ["a2"]) (m := 1)
+    (.interrupt (sc := [.tick]) (c := "a2") (stamp := 1)
+      (.tick (sc := []) (cs := ["a"]) (m := 2) (.initial
+        ⟨_, .step (i := 0) (.step (i := 0) (.step (i := 0) (.init rfl) rfl) rfl) rfl, rfl, rfl⟩)
+        rfl ⟨_, .step (i := 0) (.step (i := 0) (.init rfl) rfl) rfl, rfl, rfl⟩) (by decide))
+    rfl ⟨_, .step (i := 0) (.init rfl) rfl, rfl, rfl⟩, exCDev_strict.noPast, ?_, ?_⟩
+  · simp [StampsTimely, stampsTimelyRev]
+  · decide
+
+/-- **checked counterexample to "all tick times so far are `<` the CURRENT entry".**  After the
+initial tick `b` has a callback entry 3.  Continuation: tick at 2 (`< 3`), then `b` raises an
+(untimely) interrupt stamped 1: `b` has not been updated, its entry is now
+`lowered "b" 3 [.tick, .interrupt "b" 1] = 1`, and the tick at 2 is not `< 1` (it is `< 3`, the
+entry when the tick happened, as `StillPendingI` says). -/
+theorem entry_below_earlier_tick : ∃ st st' : FlatSt Int,
+    FlatRunI exCW (fun _ => exCDev) 0 [] 0 st [0] ∧ alookup st.wake "b" = some 3 ∧
+    FlatExtI exCW (fun _ => exCDev) 0 st [0] [.tick, .interrupt "b" 1] 1 st' [2, 0] ∧
+    st'.obsOf "b" = st.obsOf "b" ∧ alookup st'.wake "b" = some 1 ∧
+    lowered "b" 3 [.tick, .interrupt "b" 1] = 1 := by
+  refine ⟨_, _, .initial
+      ⟨_, .step (i := 0) (.step (i := 0) (.step (i := 0) (.init rfl) rfl) rfl) rfl, rfl, rfl⟩, ?_,
+    .interrupt (sc := [.tick]) (c := "b") (stamp := 1)
+      (.tick (sc := []) (cs := ["a"]) (m := 2) .refl
+        rfl ⟨_, .step (i := 0) (.step (i := 0) (.init rfl) rfl) rfl, rfl, rfl⟩) (by decide),
+    ?_, ?_, ?_⟩ <;> decide
+
+/-
+Not done here (nothing is left unproved in this file):
+* LIVENESS of interrupts ("the interrupt IS served after finitely many ticks", the analogue of
+  `callback_eventually_served`): with interrupts tick times need not increase STRICTLY even under
+  `StrictFuture` (`exI_run` has two ticks at time 2), so the counting argument of C06Run does not
+  carry over as it stands; a bound would have to count ticks per (time, set of components).
+  Safety (`interrupt_served`: never lost, never overtaken) and continuability
+  (`interrupt_next_tick`) are proved.
+* C02 and `one_time_per_tick`/`tick_complete` (C04) are statements about ONE tick (`TickRun`,
+  `TickSys.Reachable`); they apply verbatim to every tick of a `FlatRunI` and need no transfer.
+-/
 
 end Tickit
